@@ -109,7 +109,7 @@ CHECKS = [
     {
         "id": "C13", "engine": "E12 closed-form kernels", "design_ref": "4 (E12), 5 C13",
         "technique": "term normalisation of the returned expression into a monomial in pi, the radius and the dimension (rational coefficient, exponents linear in n, gamma terms as atoms, class helpers inlined), compared with the textbook formula",
-        "text": "ONE clause of C13's last sentence ('area and volume return the textbook measures'): Circle.area = pi r^2, Sphere.volume = pi^(n/2)/Gamma(n/2+1) r^n and Sphere.area = n pi^(n/2)/Gamma(n/2+1) r^(n-1) as monomials. A formula with the same gamma terms but another coefficient, factor or exponent is a violation; a formula written with other building blocks (Gamma(n/2), factorials) is UNDECIDED. NOT decided: all constructors (from_points, from_tangent, from_foci, from_crossratio; the loci of Circle/Ellipse/Sphere/Cone/Cylinder), center, radius, foci - numeric identities between a constructor's matrix and an accessor.",
+        "text": "ONE clause of C13's last sentence ('area and volume return the textbook measures'): Circle.area = pi r^2, Sphere.volume = pi^(n/2)/Gamma(n/2+1) r^n and Sphere.area = n pi^(n/2)/Gamma(n/2+1) r^(n-1) as monomials. Plus a necessary condition for 'center, radius ... return the parameters': every number returned by a quadric class has homogeneity degree 0 in the matrix and in every argument (E5; a sum of terms of definite different degree that reaches the return through scaling or roots only is a violation). A formula with the same gamma terms but another coefficient, factor or exponent is a violation; a formula written with other building blocks (Gamma(n/2), factorials) is UNDECIDED. NOT decided: all constructors (from_points, from_tangent, from_foci, from_crossratio; the loci of Circle/Ellipse/Sphere/Cone/Cylinder), center, radius, foci - numeric identities between a constructor's matrix and an accessor.",
         "note": "thinnest claim of the set, labelled so; it exists because the clause is decidable and was violated on the pinned tree (Circle.area, fixed)",
     },
     {
